@@ -82,6 +82,12 @@ RandOp(x) ==
 \* opcode and a non-zero rcode and some flags set, so that later calls must overwrite them
 ParsedStarts ==
   {HdrEncode(77, fs, oc, rc, 0, 0, 0, 0) : fs \in {{}, {"qr", "rd"}, {"qr", "aa", "ad"}}, oc \in NamedOpcodes, rc \in {0, 3, 5, 10}}
+  \* unassigned RCODEs (11..15) and OPCODEs (3, 7..15), without and with an OPT record (whose TTL carries the
+  \* upper rcode bits): a received value the library has no name for must be written back unchanged
+  \cup {HdrEncode(80, {"qr"}, oc, rc, 0, 0, 0, 0) : oc \in {0, 3, 7, 15}, rc \in {0, 11, 15}}
+  \cup {HdrEncode(81, {"qr", "ra"}, oc, rc, 0, 0, 0, 1)
+          \o EncRecord([name |-> <<>>, type |-> 41, class |-> 1232, cf |-> FALSE, ttl |-> <<hi, 0, 0, 0>>, rd |-> <<<<>>>>])
+        : oc \in {0, 3}, rc \in {0, 1, 11, 13, 15}, hi \in {0, 1}}
   \cup {HdrEncode(78, {"rd"}, 4, 2, 1, 0, 0, 0) \o EncQuestion([name |-> <<La>>, qtype |-> 1, qclass |-> 1, unicast |-> FALSE])}
   \cup {HdrEncode(79, {"qr"}, 5, 9, 0, 1, 0, 0)
           \o EncRecord([name |-> <<Lb, La>>, type |-> 1, class |-> 1, cf |-> TRUE, ttl |-> <<0, 0, 0, 7>>, rd |-> <<<<10, 0, 0, 1>>>>])}
@@ -109,7 +115,8 @@ HistoryConsistent == LET r == RunOps(hist) IN r[Len(r)] = pkt
 RefRoundTrip ==
   LET m == RefEncodePlain(pkt)
       d == RefDecode(m) IN
-  Encodable(pkt) /\ d.ok /\ d.exact /\ d.end = Len(m) /\ d.pkt = pkt
+  \* (a packet parsed from a message with an unassigned opcode / rcode has no constructor-level equivalent)
+  (pkt.opcode # -1 /\ pkt.rcode # -1) => (Encodable(pkt) /\ d.ok /\ d.exact /\ d.end = Len(m) /\ d.pkt = pkt)
 
 Emit == done => PrintT(<<"CASE", ToJson([pkt |-> pkt, hist |-> hist])>>)
 =============================================================================
